@@ -132,7 +132,8 @@ def run(ch, tier):
         elif me.name == 'step ended':
             sched.log('m-end')
         elif me.name == 'event consumed':
-            sched.log('m-consumed', me.event.data.get('uid'), me.event.name)
+            # (the peek/pop race of K1 can make the runner announce the consumption of nothing at all)
+            sched.log('m-consumed', me.event.data.get('uid') if me.event is not None else None, getattr(me.event, 'name', None))
         else:
             sched.log('m-other', me.name)
     it.attach(listener)
@@ -273,6 +274,7 @@ def run(ch, tier):
         return res.fail('deadlock', 'no thread can run: %s' % (sched.deadlock,), **ctx)
     v = check_history(H, mark, execute_all, ending)
     if v:
+        res.extra['involved_uids'] = list(v[2]) if len(v) > 2 else []
         return res.fail(v[0], v[1], **ctx)
     cross = sum(1 for i in range(1, len(sched.switches)) if (sched.switches[i][0] == 'runner') != (sched.switches[i - 1][0] == 'runner'))
     if cross >= 3:
@@ -328,13 +330,13 @@ def check_history(H, mark, execute_all, ending):
     for a in zero:
         for b in zero:
             if a != b and ret[a] < inv[b][0] and cons[a][0]['s'] > cons[b][0]['s']:
-                return ('fifo', 'queue(uid %s) returned before queue(uid %s) was called, yet %s was consumed first' % (a, b, b))
+                return ('fifo', 'queue(uid %s) returned before queue(uid %s) was called, yet %s was consumed first' % (a, b, b), [a, b])
     for c in calls[1:]:     # calls[0] is the initialisation step, which enters the root and consumes nothing by design
         if c['uid'] is None and c['s'] <= mark:
             stuck = [u for u in zero if ret[u] < c['s'] and cons[u][0]['s'] > c['s']]
             if stuck:
                 return ('due-event-left-behind', 'a step started (seq %d) after queue(uid %s) had returned and consumed nothing although that '
-                        'delay-0 event was still pending' % (c['s'], stuck[0]))
+                        'delay-0 event was still pending' % (c['s'], stuck[0]), list(stuck))
     # ---- delays
     for u in ret:
         d = inv[u][4]
@@ -408,21 +410,41 @@ def check_history(H, mark, execute_all, ending):
 def evidence(H, sched):
     """facts about the history the known-finding classifiers need"""
     # K1: a thread was switched out inside the interpreter's queue code and, before it resumed, another
-    # thread touched the queues (the runner consumed an event, or another queue() call completed)
+    # thread touched the queues (the runner consumed an event, or another queue() call completed).  Recorded per victim:
+    # the uid whose own queue() call was interrupted that way, or the runner (interrupted between peeking and popping)
     overlap = False
     open_ = {}
+    calling = {}            # client thread -> uid of the queue() call it is in
+    overlapped_uids = set()
+    runner_overlap = False
     for e in H:
+        if e[2] == 'queue-inv':
+            calling[e[1]] = e[3]
+        # what counts is a *mutation* of the queues by somebody else while the victim is switched out inside the queue code:
+        # the runner popping an event, or another client being inside its own queue() call.  A runner that merely looks at
+        # the queues (a step that starts and consumes nothing) invalidates nothing the victim has computed
+        if e[2] == 'm-consumed' or (e[1] in calling and e[2] in ('queue-inv', 'queue-ret', 'qc-preempt', 'qc-resume')):
+            for t in open_:
+                if t != e[1]:
+                    overlap = True
+                    if t == 'runner':
+                        runner_overlap = True
+                    elif t in calling:
+                        overlapped_uids.add(calling[t])
         if e[2] == 'qc-preempt':
             open_[e[1]] = e[0]
         elif e[2] == 'qc-resume':
             open_.pop(e[1], None)
-        elif e[2] in ('m-consumed', 'queue-ret', 'm-start') and any(t != e[1] for t in open_):
-            overlap = True
-    died_in_queue = any(e[2] == 'thread-died' for e in H) and bool(open_ or overlap)
+        if e[2] == 'queue-ret':
+            calling.pop(e[1], None)
+    died = [e[1] for e in H if e[2] == 'thread-died']
+    died_in_queue = bool(died) and bool(open_ or overlap)
     stop_inv = [e[0] for e in H if e[2] == 'stop-inv']
     pause_after_stop = bool(stop_inv) and any(e[2] == 'pause-ret' and e[0] > stop_inv[0] for e in H)
     parked = bool(sched.deadlock) and any(n == 'runner' and why == 'Event.wait' for n, st, why in sched.deadlock)
-    return {'queue_code_overlap': overlap or died_in_queue, 'pause_after_stop': pause_after_stop, 'runner_parked': parked}
+    return {'queue_code_overlap': overlap or died_in_queue, 'pause_after_stop': pause_after_stop, 'runner_parked': parked,
+            'overlapped_queue_calls': sorted(overlapped_uids), 'runner_interrupted_in_queue_code': runner_overlap,
+            'died': [(n, c) for n, c, _ in sched.errors], 'died_inside_own_queue_call': [t for t in died if t in calling]}
 
 
 def classify(res, record, tier):
@@ -438,6 +460,15 @@ def classify(res, record, tier):
     if cls in ('exception-in-thread', 'fifo', 'due-event-left-behind', 'event-lost', 'event-consumed-twice',
                'steps-not-reported-faithfully') \
             and ev.get('queue_code_overlap'):
+        # the finding is specific: (a) the victim is a client's queue() call during which somebody else changed the queues (its
+        # event lands at a stale position, after which the list is no longer sorted and later insertions go astray too, or
+        # the call dies with IndexError), (b) the victim is the runner between peeking and popping while a client inserts.
+        # Without such a mutation under a switched-out victim the violation is something else and is reported
+        if cls == 'exception-in-thread':
+            if not any(c == 'IndexError' and n in ev.get('died_inside_own_queue_call', []) for n, c in ev.get('died', [])):
+                return None
+        elif not (ev.get('runner_interrupted_in_queue_code') or ev.get('overlapped_queue_calls')):
+            return None
         ATOMIC_QUEUE[0] = True
         try:
             r2 = run(Choices(record=record), tier)
